@@ -212,6 +212,10 @@ fn main() {
     // self-referential definitions through every type constructor; generic names with every type-argument count
     jobs.extend(infinite_type_texts());
     jobs.extend(arity_texts());
+    // ill-formed declarations x default values / named arguments / shorthand; diverging expressions in every position
+    jobs.extend(illformed_decl_texts());
+    jobs.extend(diverging_texts());
+    jobs.extend(literal_edge_texts());
     // two-file texts: every import form over a damaged / truncated / self-importing library file
     let heads = ["use lib1\n", "use lib1.(f, Pt)\n", "use lib1 except (f)\n", "use lib1 as lb\n", "use lib1\nuse lib1\n", "use lib1.(nothere)\n", "use main\nuse lib1\n"];
     let n_imp = if quick { 120 } else { 6000 };
@@ -243,7 +247,7 @@ fn main() {
             }
         };
         match crashed {
-            Some(how) => ctx.spec_fail(format!("regression of {id} (fixed earlier): the front end {how} on {:?}", text)),
+            Some(how) => ctx.spec_fail(format!("regression input {id} (a confirmed defect, see DESIGN §7): the front end {how} on {:?}", text)),
             None => ctx.count("regression-probe:pass"),
         }
     }
@@ -252,7 +256,7 @@ fn main() {
     let mut seen: BTreeMap<String, u64> = BTreeMap::new();
     let mut disagree = 0;
     for ((label, text), r) in jobs.iter().zip(results) {
-        let kind = label.split(':').take(if label.starts_with("mut") || label.starts_with("deep") || label.starts_with("long") || label.starts_with("import") || label.starts_with("inftype") || label.starts_with("arity") { 2 } else { 1 }).collect::<Vec<_>>().join(":");
+        let kind = label.split(':').take(if label.starts_with("mut") || label.starts_with("deep") || label.starts_with("long") || label.starts_with("import") || label.starts_with("inftype") || label.starts_with("arity") || label.starts_with("illdecl") || label.starts_with("diverge") || label.starts_with("litedge") { 2 } else { 1 }).collect::<Vec<_>>().join(":");
         let kind = kind.trim_end_matches(|c: char| c.is_ascii_digit()).to_string();
         ctx.count(&format!("text:{kind}"));
         if !text.is_ascii() {
